@@ -525,23 +525,55 @@ func (ro *Roles) timerUseGuarded(r *Report, rule string) {
 				}
 				cond, neg = u.X, !neg
 			}
-			bo, ok := cond.(*ssa.BinOp)
-			if !ok || (bo.Op != token.EQL && bo.Op != token.NEQ) {
-				continue
-			}
-			x, y := bo.X, bo.Y
-			if isNilConst(x) {
-				x, y = y, x
-			}
-			if !isNilConst(y) {
-				continue
-			}
-			base, ok := timerLoad(x)
-			if !ok {
-				continue
+			var base string
+			var isEq bool
+			if pc, isCall := cond.(*ssa.Call); isCall {
+				// a predicate method of the job that returns `j.startTimer != nil` (or == nil)
+				g := pc.Call.StaticCallee()
+				if g == nil || !w.InModule(g) || len(g.Blocks) != 1 || len(g.Params) == 0 || len(pc.Call.Args) == 0 {
+					continue
+				}
+				rt, isRt := g.Blocks[0].Instrs[len(g.Blocks[0].Instrs)-1].(*ssa.Return)
+				if !isRt || len(rt.Results) != 1 {
+					continue
+				}
+				pb, isB := rt.Results[0].(*ssa.BinOp)
+				if !isB || (pb.Op != token.EQL && pb.Op != token.NEQ) {
+					continue
+				}
+				px, py := pb.X, pb.Y
+				if isNilConst(px) {
+					px, py = py, px
+				}
+				ld, isLd := px.(*ssa.UnOp)
+				if !isNilConst(py) || !isLd || ld.Op != token.MUL {
+					continue
+				}
+				fa, isFA := ld.X.(*ssa.FieldAddr)
+				if !isFA || fa.X != ssa.Value(g.Params[0]) || fieldName(fa.X.Type(), fa.Field) != "startTimer" {
+					continue
+				}
+				base, isEq = w.AP(pc.Call.Args[0]), pb.Op == token.EQL
+			} else {
+				bo, ok := cond.(*ssa.BinOp)
+				if !ok || (bo.Op != token.EQL && bo.Op != token.NEQ) {
+					continue
+				}
+				x, y := bo.X, bo.Y
+				if isNilConst(x) {
+					x, y = y, x
+				}
+				if !isNilConst(y) {
+					continue
+				}
+				base, ok = timerLoad(x)
+				if !ok {
+					continue
+				}
+				isEq = bo.Op == token.EQL
 			}
 			nonNilSucc := 0 // cond true ⇒ non-nil for !=
-			if (bo.Op == token.EQL) != neg {
+			if isEq != neg {
 				nonNilSucc = 1
 			}
 			if s := b.Succs[nonNilSucc]; len(s.Preds) == 1 {
